@@ -625,6 +625,24 @@ class List(list, base.Symbolic, pg_typing.CustomTyping):
     """Returns a repeated Lit of self."""
     return self.__mul__(n)
 
+  def __iadd__(self, other: Iterable[Any]) -> 'List':
+    """In-place concatenation (`l += other`) through symbolic `extend`."""
+    self.extend(other)
+    return self
+
+  def __imul__(self, n: int) -> 'List':
+    """In-place repetition (`l *= n`) through symbolic mutators."""
+    if not isinstance(n, numbers.Integral):
+      raise TypeError(
+          f'can\'t multiply sequence by non-int of type {type(n).__name__!r}')
+    if n <= 0:
+      self.clear()
+    elif n > 1:
+      items = list(self.sym_values())
+      for _ in range(n - 1):
+        self.extend(items)
+    return self
+
   def copy(self) -> 'List':
     """Shallow current list."""
     return List(super().copy(), value_spec=self._value_spec)
